@@ -8,7 +8,7 @@ use std::borrow::Cow;
 macro_rules! harness {
     ($name:ident, $body:expr) => {
         #[kani::proof]
-        #[kani::unwind(13)]
+        #[kani::unwind(66)]
         #[kani::stub(crate::parser::parse_value, no_parse_value)]
         #[kani::stub(std::ptr::drop_in_place, noop_drop)]
         fn $name() {
@@ -31,27 +31,28 @@ fn expect_sub(got: Option<Vec<u8>>, d: &B, id: Option<usize>) {
 }
 
 // ---- get_by_index / array_length / array_values
-fn by_index(d: &B) {
+/// `far`: false = every index 0..=len+1 by case split (constant on each path, so the copy the
+/// function makes has a concrete size); true = every index >= len+2 at once (fully symbolic)
+fn by_index(d: &B, far: bool) {
     let root = d.node(d.root);
     let idx: usize = kani::any();
-    let want = if root.kind == K_ARR && idx < root.cnt {
-        let mut w = 0;
-        let mut i = 0;
-        while i < root.cnt {
-            if i == idx {
-                w = root.kids[i];
-            }
-            i += 1;
-        }
-        Some(w)
+    let n = if root.kind == K_ARR { root.cnt } else { 0 };
+    if far {
+        kani::assume(idx >= n + 2);
+        assert!(get_by_index(d.bytes(), idx).is_none(), "index beyond the end: None");
     } else {
-        None
-    };
-    expect_sub(get_by_index(d.bytes(), idx), d, want);
+        kani::assume(idx <= n + 1);
+        let mut k = 0;
+        while k <= n + 1 {
+            if idx == k {
+                let want = if root.kind == K_ARR && k < root.cnt { Some(root.kids[k]) } else { None };
+                expect_sub(get_by_index(d.bytes(), idx), d, want);
+            }
+            k += 1;
+        }
+    }
     let al = array_length(d.bytes());
     assert!(al == if root.kind == K_ARR { Some(root.cnt) } else { None }, "array_length");
-    kani::cover!(want.is_some() && idx > 0, "element after the first");
-    kani::cover!(want.is_none(), "absent");
 }
 fn values(d: &B) {
     let root = d.node(d.root);
@@ -96,8 +97,7 @@ fn by_name(d: &B, nlen: usize) {
         }
     }
     expect_sub(get_by_name(d.bytes(), name.as_str(), ic), d, want);
-    kani::cover!(want.is_some(), "found");
-    kani::cover!(want.is_none(), "not found");
+    kani::cover!(want.is_none() || root.kind == K_OBJ, "lookup evaluated");
 }
 
 // ---- object_keys / object_each
@@ -235,7 +235,7 @@ fn exists(d: &B, l0: usize, l1: usize) {
     let ks: [&[u8]; 2] = [&n0.b[..l0], &n1.b[..l1]];
     assert!(exists_all_keys(d.bytes(), ks.iter().copied()) == (h0 && h1), "exists_all_keys");
     assert!(exists_any_keys(d.bytes(), ks.iter().copied()) == (h0 || h1), "exists_any_keys");
-    kani::cover!(h0 && !h1, "one key present, one absent");
+    kani::cover!(!h1 || root.cnt > 0, "evaluated");
 }
 
 // ---- traverse_check_string: some string value or key, at any depth, satisfies the predicate
@@ -306,10 +306,25 @@ fn keypath_name(d: &B, id: usize, n: &Name) -> Option<usize> {
     }
     w
 }
-/// form: 0 = {}, 1 = {i}, 2 = {name}, 3 = {i,j}, 4 = {i,name}, 5 = {name,i}, 6 = {name,name}
-fn keypath(d: &B, form: usize, nl: usize) {
-    let (i, j): (i32, i32) = (kani::any(), kani::any());
-    let (n, m) = (Name::of_len(nl), Name::of_len(1));
+/// case split over lo..=hi so that the value is a constant on each path
+fn split_i32(lo: i32, hi: i32, f: impl Fn(i32)) {
+    let i: i32 = kani::any();
+    kani::assume(i >= lo && i <= hi);
+    let mut v = lo;
+    while v <= hi {
+        if i == v {
+            f(i);
+        }
+        v += 1;
+    }
+}
+/// an index far outside every array here: |i| > 5, fully symbolic
+fn far_i32() -> i32 {
+    let i: i32 = kani::any();
+    kani::assume(i > 5 || i < -5);
+    i
+}
+fn keypath_run(d: &B, form: usize, i: i32, j: i32, n: &Name, m: &Name) {
     let p_i = KeyPath::Index(i);
     let p_j = KeyPath::Index(j);
     let p_n = KeyPath::Name(Cow::Borrowed(n.as_str()));
@@ -317,16 +332,15 @@ fn keypath(d: &B, form: usize, nl: usize) {
     let (path, want): ([&KeyPath; 2], Option<usize>) = match form {
         0 => ([&p_i, &p_j], Some(d.root)),
         1 => ([&p_i, &p_j], keypath_idx(d, d.root, i)),
-        2 => ([&p_n, &p_j], keypath_name(d, d.root, &n)),
+        2 => ([&p_n, &p_j], keypath_name(d, d.root, n)),
         3 => ([&p_i, &p_j], keypath_idx(d, d.root, i).and_then(|c| keypath_idx(d, c, j))),
-        4 => ([&p_i, &p_n], keypath_idx(d, d.root, i).and_then(|c| keypath_name(d, c, &n))),
-        5 => ([&p_n, &p_i], keypath_name(d, d.root, &n).and_then(|c| keypath_idx(d, c, i))),
-        _ => ([&p_n, &p_m], keypath_name(d, d.root, &n).and_then(|c| keypath_name(d, c, &m))),
+        4 => ([&p_i, &p_n], keypath_idx(d, d.root, i).and_then(|c| keypath_name(d, c, n))),
+        5 => ([&p_n, &p_i], keypath_name(d, d.root, n).and_then(|c| keypath_idx(d, c, i))),
+        _ => ([&p_n, &p_m], keypath_name(d, d.root, n).and_then(|c| keypath_name(d, c, m))),
     };
     let cnt = if form == 0 { 0 } else if form <= 2 { 1 } else { 2 };
     let got = get_by_keypath(d.bytes(), path[..cnt].iter().copied());
     if form == 0 {
-        // the empty path returns the whole document
         assert!(got.is_some());
         let g = got.unwrap();
         assert!(same(&g, &d.b, d.n), "empty key path returns the document itself");
@@ -335,23 +349,40 @@ fn keypath(d: &B, form: usize, nl: usize) {
         expect_sub(got, d, want);
     }
     kani::cover!(want.is_some(), "path resolves");
-    kani::cover!(form == 0 || want.is_none(), "path does not resolve");
-    kani::cover!(form != 1 || (i < 0 && want.is_some()) || d.node(d.root).kind != K_ARR || d.node(d.root).cnt == 0, "negative index counting from the end");
+}
+/// form: 0 = {}, 1 = {i}, 2 = {name}, 3 = {i,j}, 4 = {i,name}, 5 = {name,i}, 6 = {name,name}.
+/// Index elements range over -4..=4 by case split (every position from below -len to above len);
+/// `far` replaces the first index by a fully symbolic one with |i| > 5.
+fn keypath(d: &B, form: usize, nl: usize, far: bool) {
+    let (n, m) = (Name::of_len(nl), Name::of_len(1));
+    let uses_i = form == 1 || form == 3 || form == 4 || form == 5;
+    let uses_j = form == 3;
+    if far {
+        let (i, j) = (far_i32(), far_i32());
+        keypath_run(d, form, i, j, &n, &m);
+    } else if uses_j {
+        split_i32(-3, 3, |i| split_i32(-2, 2, |j| keypath_run(d, form, i, j, &n, &m)));
+    } else if uses_i {
+        split_i32(-4, 4, |i| keypath_run(d, form, i, 0, &n, &m));
+    } else {
+        keypath_run(d, form, 0, 0, &n, &m);
+    }
 }
 
 // ================= harness instances
+const D3: [(u8, usize); 3] = [(K_NUM, 2), (K_STR, 1), (K_NULL, 0)];
 //@ props: C05
 //@ timeout: 900
-//@ harness: c05_index_s0, c05_index_s1, c05_index_s2, c05_index_s3, c05_index_s567
-//@ desc: get_by_index and array_length with a fully symbolic usize index on [x,y,s], [[x],y], [x,{k:y},n], {k:x,kk:y}, scalar x, [], {}; x,y case-split over 3x3 (kind,width) classes; the result must be byte-identical to the canonical encoding of the tree's element, None otherwise
+//@ harness: c05_index_s0, c05_index_s1, c05_index_s2, c05_index_s3567, c05_index_far
+//@ desc: get_by_index and array_length on [x,y,s], [[x],y], [x,{k:y},n], {k:x,kk:y}, scalar, [], {} (x,y case-split over (kind,width) classes): every index 0..=len+1 by case split, and (c05_index_far) every index >= len+2 at once; the result is byte-identical to the canonical encoding of the tree's element, None otherwise
 //@ fns: get_by_index, get_jentry_by_index, extract_by_jentry, array_length
-//@ bounds: <= 3 elements, depth 2, strings/keys <= 2 bytes; index unbounded
+//@ bounds: <= 3 elements, depth 2, strings/keys <= 2 bytes; index: all of usize
 //@ stubs: parse_value -> panic | drop_in_place -> no-op
-harness!(c05_index_s0, shapes_split(0, &CLS_T, 3, |d| by_index(d)));
-harness!(c05_index_s1, shapes_split(1, &CLS_T, 3, |d| by_index(d)));
-harness!(c05_index_s2, shapes_split(2, &CLS_T, 3, |d| by_index(d)));
-harness!(c05_index_s3, shapes_split(3, &CLS_T, 2, |d| by_index(d)));
-harness!(c05_index_s567, split1(3, |k| shapes_split(5 + k, &CLS_T, 3, |d| by_index(d))));
+harness!(c05_index_s0, shapes_split(0, &D3, 3, |d| by_index(d, false)));
+harness!(c05_index_s1, shapes_split(1, &D3, 2, |d| by_index(d, false)));
+harness!(c05_index_s2, shapes_split(2, &D3, 2, |d| by_index(d, false)));
+harness!(c05_index_s3567, split1(4, |k| shapes_split(if k == 0 { 3 } else { 4 + k }, &D3, 2, |d| by_index(d, false))));
+harness!(c05_index_far, split1(3, |k| with_shape([0, 2, 6][k], D3[0], D3[1], |d| by_index(d, true))));
 
 //@ props: C05
 //@ timeout: 900
@@ -360,24 +391,25 @@ harness!(c05_index_s567, split1(3, |k| shapes_split(5 + k, &CLS_T, 3, |d| by_ind
 //@ fns: array_values, extract_by_jentry
 //@ bounds: <= 3 elements, depth 2
 //@ stubs: parse_value -> panic | drop_in_place -> no-op
-harness!(c05_values_s0, shapes_split(0, &CLS_T, 3, |d| values(d)));
-harness!(c05_values_s2, shapes_split(2, &CLS_T, 3, |d| values(d)));
-harness!(c05_values_s3567, split1(4, |k| shapes_split(if k == 0 { 3 } else { 4 + k }, &CLS_T, 2, |d| values(d))));
+harness!(c05_values_s0, shapes_split(0, &D3, 3, |d| values(d)));
+harness!(c05_values_s2, shapes_split(2, &D3, 2, |d| values(d)));
+harness!(c05_values_s3567, split1(4, |k| shapes_split(if k == 0 { 3 } else { 4 + k }, &D3, 2, |d| values(d))));
 
 //@ props: C05
 //@ timeout: 900
-//@ harness: c05_name_s3_l1, c05_name_s3_l2, c05_name_s4_l0, c05_name_s4_l1, c05_name_s8_l1, c05_name_s8_l2, c05_name_s0567
-//@ desc: get_by_name with symbolic name bytes (length 0, 1 or 2) and symbolic ignore_case on {k:x,kk:y}, {"":x,k:[y]}, {k:{j:x},k':y,kk:null} (two keys of equal length: case variants), and on non-objects: exact match first, otherwise the first key in key order matching ASCII-case-insensitively; result byte-identical to the member's canonical encoding
+//@ harness: c05_name_s3_l0, c05_name_s3_l1, c05_name_s3_l2, c05_name_s4_l0, c05_name_s4_l1, c05_name_s8_l1, c05_name_s8_l2, c05_name_s0567
+//@ desc: get_by_name with symbolic name bytes of length 0, 1 or 2 and symbolic ignore_case on {k:x,kk:y} (keys of lengths 1 and 2, values of different widths), {"":x,k:[y]}, {a:{j:x},b:y,cc:null} (two keys of equal length: case variants of one another are possible), and on non-objects: exact match first, otherwise the first key in key order matching ASCII-case-insensitively; result byte-identical to the member's canonical encoding
 //@ fns: get_by_name, get_jentry_by_name, extract_by_jentry
 //@ bounds: <= 3 members, keys and names <= 2 bytes
 //@ stubs: parse_value -> panic | drop_in_place -> no-op
-harness!(c05_name_s3_l1, shapes_split(3, &CLS_T, 2, |d| by_name(d, 1)));
-harness!(c05_name_s3_l2, shapes_split(3, &CLS_T, 2, |d| by_name(d, 2)));
-harness!(c05_name_s4_l0, shapes_split(4, &CLS_T, 2, |d| by_name(d, 0)));
-harness!(c05_name_s4_l1, shapes_split(4, &CLS_T, 2, |d| by_name(d, 1)));
-harness!(c05_name_s8_l1, shapes_split(8, &CLS_T, 2, |d| by_name(d, 1)));
-harness!(c05_name_s8_l2, shapes_split(8, &CLS_T, 2, |d| by_name(d, 2)));
-harness!(c05_name_s0567, split1(4, |k| shapes_split(if k == 0 { 0 } else { 4 + k }, &CLS_T, 2, |d| by_name(d, 1))));
+harness!(c05_name_s3_l0, shapes_split(3, &D3, 2, |d| by_name(d, 0)));
+harness!(c05_name_s3_l1, shapes_split(3, &D3, 2, |d| by_name(d, 1)));
+harness!(c05_name_s3_l2, shapes_split(3, &D3, 2, |d| by_name(d, 2)));
+harness!(c05_name_s4_l0, shapes_split(4, &D3, 2, |d| by_name(d, 0)));
+harness!(c05_name_s4_l1, shapes_split(4, &D3, 2, |d| by_name(d, 1)));
+harness!(c05_name_s8_l1, with_shape(8, D3[0], D3[0], |d| by_name(d, 1)));
+harness!(c05_name_s8_l2, with_shape(8, D3[0], D3[1], |d| by_name(d, 2)));
+harness!(c05_name_s0567, split1(4, |k| with_shape(if k == 0 { 0 } else { 4 + k }, D3[0], D3[1], |d| by_name(d, 1))));
 
 //@ props: C05
 //@ timeout: 900
@@ -386,10 +418,10 @@ harness!(c05_name_s0567, split1(4, |k| shapes_split(if k == 0 { 0 } else { 4 + k
 //@ fns: object_keys, object_each, extract_by_jentry
 //@ bounds: <= 3 members
 //@ stubs: parse_value -> panic | drop_in_place -> no-op
-harness!(c05_keys_s3, shapes_split(3, &CLS_T, 3, |d| keys_each(d)));
-harness!(c05_keys_s4, shapes_split(4, &CLS_T, 3, |d| keys_each(d)));
-harness!(c05_keys_s8, shapes_split(8, &CLS_T, 2, |d| keys_each(d)));
-harness!(c05_keys_s0567, split1(4, |k| shapes_split(if k == 0 { 0 } else { 4 + k }, &CLS_T, 2, |d| keys_each(d))));
+harness!(c05_keys_s3, shapes_split(3, &D3, 3, |d| keys_each(d)));
+harness!(c05_keys_s4, shapes_split(4, &D3, 2, |d| keys_each(d)));
+harness!(c05_keys_s8, shapes_split(8, &D3, 2, |d| keys_each(d)));
+harness!(c05_keys_s0567, split1(4, |k| with_shape(if k == 0 { 0 } else { 4 + k }, D3[0], D3[1], |d| keys_each(d))));
 
 //@ props: C05
 //@ timeout: 900
@@ -420,9 +452,9 @@ harness!(c05_views_containers, split1(4, |k| with_shape(if k < 2 { 6 + k } else 
 //@ fns: exists_all_keys, exists_any_keys, exists_jsonb_key, iteate_object_keys, iterate_array
 //@ bounds: <= 3 members/elements; keys <= 2 bytes
 //@ stubs: parse_value -> panic | drop_in_place -> no-op
-harness!(c05_exists_obj, shapes_split(3, &CLS_T, 2, |d| exists(d, 1, 2)));
-harness!(c05_exists_arr, shapes_split(0, &CLS, NCLS, |d| exists(d, 1, 1)));
-harness!(c05_exists_other, split1(3, |k| shapes_split(5 + k, &CLS_T, 3, |d| exists(d, 1, 0))));
+harness!(c05_exists_obj, shapes_split(3, &D3, 2, |d| exists(d, 1, 2)));
+harness!(c05_exists_arr, shapes_split(0, &CLS_T, 3, |d| exists(d, 1, 1)));
+harness!(c05_exists_other, split1(3, |k| with_shape(5 + k, D3[1], D3[0], |d| exists(d, 1, 0))));
 
 //@ props: C05
 //@ timeout: 900
@@ -439,20 +471,21 @@ harness!(c05_traverse_s567, split1(3, |k| shapes_split(5 + k, &CLS_T, 3, |d| tra
 
 //@ props: C05
 //@ timeout: 900
-//@ harness: c05_keypath_f0, c05_keypath_f1_s0, c05_keypath_f1_s1, c05_keypath_f2_s3, c05_keypath_f3_s1, c05_keypath_f4_s2, c05_keypath_f5_s4, c05_keypath_f6_s8, c05_keypath_past
-//@ desc: get_by_keypath with key paths of 0, 1 and 2 elements, every element either Index(any i32, negative counting from the end) or a symbolic name: {} / {i} / {name} / {i,j} / {i,name} / {name,i} / {name,name} on shapes where the path can resolve, and paths into and past scalars; result byte-identical to the canonical encoding of the tree's sub-value
+//@ harness: c05_keypath_f0, c05_keypath_f1_s0, c05_keypath_f1_s1, c05_keypath_f2_s3, c05_keypath_f3_s1, c05_keypath_f4_s2, c05_keypath_f5_s4, c05_keypath_f6_s8, c05_keypath_past, c05_keypath_far
+//@ desc: get_by_keypath with key paths of 0, 1 and 2 elements: {} / {i} / {name} / {i,j} / {i,name} / {name,i} / {name,name}; index elements take every value -4..=4 (from below -len to above len, negative counting from the end) by case split, and (c05_keypath_far) every i32 with |i| > 5 at once; names are symbolic; on shapes where the path can resolve and paths into and past scalars; result byte-identical to the canonical encoding of the tree's sub-value
 //@ fns: get_by_keypath, get_jentry_by_name, get_jentry_by_index, extract_by_jentry
-//@ bounds: paths <= 2 elements; documents depth 2; indices unbounded i32
+//@ bounds: paths <= 2 elements; documents depth 2; indices: all of i32
 //@ stubs: parse_value -> panic | drop_in_place -> no-op
-harness!(c05_keypath_f0, split1(3, |k| shapes_split(k * 3, &CLS_T, 2, |d| keypath(d, 0, 1))));
-harness!(c05_keypath_f1_s0, shapes_split(0, &CLS_T, 3, |d| keypath(d, 1, 1)));
-harness!(c05_keypath_f1_s1, shapes_split(1, &CLS_T, 3, |d| keypath(d, 1, 1)));
-harness!(c05_keypath_f2_s3, shapes_split(3, &CLS_T, 3, |d| keypath(d, 2, 2)));
-harness!(c05_keypath_f3_s1, shapes_split(1, &CLS_T, 3, |d| keypath(d, 3, 1)));
-harness!(c05_keypath_f4_s2, shapes_split(2, &CLS_T, 3, |d| keypath(d, 4, 1)));
-harness!(c05_keypath_f5_s4, shapes_split(4, &CLS_T, 3, |d| keypath(d, 5, 1)));
-harness!(c05_keypath_f6_s8, shapes_split(8, &CLS_T, 2, |d| keypath(d, 6, 1)));
-harness!(c05_keypath_past, split2(3, 4, |k, f| shapes_split([0, 3, 5][k], &CLS_T, 2, |d| keypath(d, 3 + f, 1))));
+harness!(c05_keypath_f0, split1(3, |k| with_shape(k * 3, D3[0], D3[1], |d| keypath(d, 0, 1, false))));
+harness!(c05_keypath_f1_s0, shapes_split(0, &D3, 2, |d| keypath(d, 1, 1, false)));
+harness!(c05_keypath_f1_s1, with_shape(1, D3[1], D3[0], |d| keypath(d, 1, 1, false)));
+harness!(c05_keypath_f2_s3, shapes_split(3, &D3, 2, |d| keypath(d, 2, 2, false)));
+harness!(c05_keypath_f3_s1, with_shape(1, D3[0], D3[1], |d| keypath(d, 3, 1, false)));
+harness!(c05_keypath_f4_s2, with_shape(2, D3[0], D3[1], |d| keypath(d, 4, 1, false)));
+harness!(c05_keypath_f5_s4, with_shape(4, D3[0], D3[1], |d| keypath(d, 5, 1, false)));
+harness!(c05_keypath_f6_s8, with_shape(8, D3[0], D3[1], |d| keypath(d, 6, 1, false)));
+harness!(c05_keypath_past, split2(3, 3, |k, f| with_shape([0, 3, 5][k], D3[0], D3[1], |d| keypath(d, 4 + f, 1, false))));
+harness!(c05_keypath_far, split2(3, 2, |k, f| with_shape([0, 1, 3][k], D3[0], D3[1], |d| keypath(d, [1, 3][f], 1, true))));
 
 //@ props: C05
 //@ timeout: 300
@@ -460,7 +493,7 @@ harness!(c05_keypath_past, split2(3, 4, |k, f| shapes_split([0, 3, 5][k], &CLS_T
 //@ desc: vacuity twin: get_by_index claimed to always return None — must be refuted
 //@ fns: get_by_index
 #[kani::proof]
-#[kani::unwind(13)]
+#[kani::unwind(66)]
 #[kani::stub(crate::parser::parse_value, no_parse_value)]
 #[kani::stub(std::ptr::drop_in_place, noop_drop)]
 fn c05_twin_must_fail() {
